@@ -84,8 +84,33 @@ class ZONEINFO(TZProvider):
 
     def _create_timezone(self, tz: cal.Timezone) -> tzinfo:
         """Create a timezone and maybe fail"""
+        tz = self._with_until_in_local_time(tz)
         file = StringIO(tz.to_ical().decode("UTF-8", "replace"))
         return tzical(file).get()
+
+    @staticmethod
+    def _with_until_in_local_time(tz: cal.Timezone) -> cal.Timezone:
+        """Return the timezone with the UNTIL of the RRULEs in local time.
+
+        RFC 5545 requires UNTIL in UTC. dateutil's tzical ignores the UTC
+        designator and compares UNTIL with the local DTSTART, so that east
+        of UTC the last onset of a rule would be lost.
+        """
+        result = tz
+        for index, sub in enumerate(tz.subcomponents):
+            rrule = sub.get("RRULE")
+            offset = sub.get("TZOFFSETFROM")
+            if isinstance(rrule, list) or rrule is None or not hasattr(offset, "td"):
+                continue
+            until = rrule.get("UNTIL")
+            until = until[0] if isinstance(until, list) and until else until
+            if not isinstance(until, datetime) or until.utcoffset() is None:
+                continue
+            if result is tz:
+                result = copy.deepcopy(tz)
+            local_until = (until.astimezone(ZONEINFO.utc) + offset.td).replace(tzinfo=None)
+            result.subcomponents[index]["RRULE"]["UNTIL"] = [local_until]
+        return result
 
     def uses_pytz(self) -> bool:
         """Whether we use pytz."""
